@@ -122,12 +122,12 @@ Inductive op :=
 | ReturnDec (c : nat)             (* return_connection: `with connection.lock: in_flight -= 1` *)
 | Notify                          (* `with self._stream_available_condition: notify()` *)
 | ReturnRead (c : nat)            (* return_connection: unlocked reads of is_defunct/is_closed/signaled_error/shutdown_on_error/_trash *)
-| ReturnSignal (c : nat) (down : bool) (* signal_connection_failure (oracle `down`), signaled_error=True, shutdown_on_error test, [_connection = None] *)
+| ReturnSignal (c : nat) (down : bool) (* signal_connection_failure (oracle `down`), signaled_error = True, shutdown_on_error test *)
 | ReturnReplace (c : nat)         (* return_connection: `with self._lock` of the defunct branch *)
 | ReturnTrash (c : nat)           (* return_connection: `with connection.lock` of the trash branch *)
 | ReplaceCheck                    (* _replace: first `with self._lock` *)
-| ReplaceConnect (ok : bool)      (* _replace: connection_factory (+ assignment of self._connection) *)
-| ReplaceAssign                   (* (only in the repaired code) *)
+| ReplaceConnect (ok : bool)      (* _replace: connection_factory (outcome `ok`), resubmission on failure *)
+| ReplaceAssign                   (* _replace: `with self._lock` installing the fresh connection (or closing it: pool shut down) *)
 | ReplaceFinish                   (* _replace: else-branch `with connection.lock: with self._lock` *)
 | ShutdownFlag | ShutdownCloseMain | ShutdownTrash   (* the three regions of shutdown() *)
 | Orphan (c : nat)                (* ResponseFuture._on_timeout `with connection.lock` *)
@@ -136,6 +136,8 @@ Inductive op :=
 | SetKsRead                       (* _set_keyspace_for_all_conns: unlocked reads of is_shutdown, _connection *)
 | SetKsInc (c : nat)              (* Connection.set_keyspace_async `with self.lock` *)
 | SetSoe.                         (* ConnectionHeartbeat: owner.shutdown_on_error = True *)
+
+Definition is_cur (s : state) (c : nat) : bool := match cur s with Some x => Nat.eqb x c | None => false end.
 
 Definition get_conn (s : state) : list out :=
   if shut s then [OErrShutdown] else match cur s with Some c => [OConn c] | None => [OErrNoConn] end.
@@ -147,7 +149,7 @@ Definition step (s : state) (o : op) : state * list out :=
   | GetConn => (s, get_conn s)
   | BorrowReadThr c => (s, [OBool (valid s c && c_thr (getc s c))])
   | BorrowCheckReplace c =>
-      if valid s c && c_thr (getc s c) && negb (replacing s)
+      if valid s c && c_thr (getc s c) && negb (replacing s) && is_cur s c
       then (submit (set_replacing s true) c, [OSubmit c]) else (s, [])
   | BorrowTry c =>
       let k := getc s c in
@@ -168,12 +170,13 @@ Definition step (s : state) (o : op) : state * list out :=
   | ReturnSignal c down =>
       if valid s c && dead (getc s c) then
         let isdown := down || soe s in
-        let s1 := updc s c k_signal in
-        (if isdown then s1 else set_cur s1 None, [OBool isdown])
+        (updc s c k_signal, [OBool isdown])
       else (s, [])
   | ReturnReplace c =>
-      if valid s c && dead (getc s c) && negb (replacing s)
-      then (submit (set_replacing s true) c, [OSubmit c]) else (s, [])
+      if valid s c && dead (getc s c) && is_cur s c then
+        let s1 := set_cur s None in
+        if replacing s then (s1, []) else (submit (set_replacing s1 true) c, [OSubmit c])
+      else (s, [])
   | ReturnTrash c =>
       let k := getc s c in
       if valid s c && (0 <? c_trp k) then
@@ -192,11 +195,17 @@ Definition step (s : state) (o : op) : state * list out :=
       | c :: r =>
           if ok then
             let n := length (conns s) in
-            (set_finishing (set_cur (set_conns (set_connecting s r) (conns s ++ [new_conn])) (Some n)) (finishing s ++ [c]), [OOpen n])
+            (set_assigning (set_conns (set_connecting s r) (conns s ++ [new_conn])) (assigning s ++ [(c, n)]), [OOpen n])
           else (submit (set_connecting s r) c, [OSubmit c])
       | [] => (s, [])
       end
-  | ReplaceAssign => (s, [])
+  | ReplaceAssign =>
+      match assigning s with
+      | (c, n) :: r =>
+          if shut s then (updc (set_assigning s r) n k_close, [OClose n BY_ABORT])
+          else (set_finishing (set_cur (set_assigning s r) (Some n)) (finishing s ++ [c]), [OBool true])
+      | [] => (s, [])
+      end
   | ReplaceFinish =>
       match finishing s with
       | c :: r =>
@@ -204,6 +213,7 @@ Definition step (s : state) (o : op) : state * list out :=
           let s1 := updc (set_replacing (set_finishing s r) false) c k_replaced in
           if c_thr k then
             if c_inflight k =? c_orph k then (updc s1 c k_close, [OClose c BY_REPLACE])
+            else if shut s then (updc s1 c k_close, [OClose c BY_SHUTDOWN])
             else (set_trash s1 (ins c (trash s)), [])
           else (s1, [])
       | [] => (s, [])
@@ -218,8 +228,9 @@ Definition step (s : state) (o : op) : state * list out :=
         end
       else (s, [])
   | ShutdownTrash =>
-      (* as written: `for conn in self._trash` iterates the set that was just emptied *)
-      if sd_phase s =? 2 then (set_trash (set_phase s 3) [], []) else (s, [])
+      if sd_phase s =? 2
+      then (set_conns (set_trash (set_phase s 3) []) (close_all (trash s) (conns s)), map (fun c => OClose c BY_SHUTDOWN) (trash s))
+      else (s, [])
   | Orphan c =>
       if valid s c && (0 <? c_live (getc s c)) then (updc s c (k_orphan (thrN s)), []) else (s, [])
   | LateDec c =>
@@ -297,7 +308,9 @@ Definition late_prog (c : nat) : prog := Do (LateDec c) (fun _ => Do Notify (fun
 Definition task_prog (ok : bool) : prog :=
   Do ReplaceCheck (fun r => match first r with
     | OBool true => Do (ReplaceConnect ok) (fun r2 => match first r2 with
-        | OOpen _ => Do ReplaceFinish (fun _ => Ret ONone)
+        | OOpen _ => Do ReplaceAssign (fun r3 => match first r3 with
+            | OBool true => Do ReplaceFinish (fun _ => Ret ONone)
+            | _ => Ret ONone end)
         | _ => Ret ONone end)
     | _ => Ret ONone end).
 
@@ -323,7 +336,7 @@ Definition prog_of (m : mop0) : prog :=
    preceding interrupt slot *)
 Definition hooked (o : op) : bool :=
   match o with
-  | GetConn | ShutdownCloseMain | Orphan _ | LateDec _ | ConnDefunct _ | SetSoe | SetKsRead | SetKsInc _ | ReplaceAssign => false
+  | GetConn | ShutdownCloseMain | Orphan _ | LateDec _ | ConnDefunct _ | SetSoe | SetKsRead | SetKsInc _ => false
   | _ => true
   end.
 
